@@ -84,7 +84,8 @@ func (r *validationResponseHandler) HandleValidationResponse(
 		// RFC 9111 §4.3.3 Handling Validation Responses (304 Not Modified)
 		// RFC 9111 §4.3.4 Freshening Stored Responses upon Validation
 		updateStoredHeaders(ctx.Stored.Data, resp)
-		if r.rs != nil {
+		if r.rs != nil && !ctx.CCReq.NoStore() &&
+			!ParseCCResponseDirectives(resp.Header).NoStore() {
 			// Write the freshened response back: updated header fields, unchanged
 			// body, and the request/response times of this exchange, so that its
 			// age restarts here.
